@@ -99,6 +99,15 @@ func exerciseToken(c C10Case) (rep c10Reply) {
 	other, _ := bridge.RootKey(c.N + 12345)
 	_, _ = tok.AuthorizerFor(biscuit.WithSingularRootPublicKey(other), c10WorldOpts())
 	_, _ = tok.AuthorizerFor(biscuit.WithRootPublicKeys(map[uint32]ed25519.PublicKey{0: other, 1: apub}, &other), c10WorldOpts())
+	// every way a verifier may be configured with 32-byte keys: no default key, empty or nil map,
+	// a projection that answers nothing or fails
+	_, _ = tok.AuthorizerFor(biscuit.WithRootPublicKeys(map[uint32]ed25519.PublicKey{0: other, 1: apub}, nil), c10WorldOpts())
+	_, _ = tok.AuthorizerFor(biscuit.WithRootPublicKeys(map[uint32]ed25519.PublicKey{}, nil), c10WorldOpts())
+	_, _ = tok.AuthorizerFor(biscuit.WithRootPublicKeys(nil, nil), c10WorldOpts())
+	_, _ = tok.AuthorizerFor(biscuit.WithRootPublicKeys(nil, &apub), c10WorldOpts())
+	_, _ = tok.AuthorizerFor(func(*uint32) (ed25519.PublicKey, error) { return nil, nil }, c10WorldOpts())
+	_, _ = tok.AuthorizerFor(func(*uint32) (ed25519.PublicKey, error) { return nil, fmt.Errorf("no key store") }, c10WorldOpts())
+	_, _ = tok.AuthorizerFor(nil, c10WorldOpts())
 	if a, err := tok.Authorizer(apub); err == nil && a != nil {
 		_ = a.Authorize()
 	}
@@ -614,7 +623,7 @@ func TestC10(t *testing.T) {
 	rec := obs.New("C10")
 	defer rec.Flush(true)
 	defer func() { c10W.stop() }()
-	rec.SetExtra("rule", "rapid, three layers. struct (70 %): 1-3 schema-shaped blocks written with the independent writer and validly signed under an attacker-chosen root, with hostile fields: symbol / variable / predicate indexes from {0,27,28,1023,1024,1024+len,2^31,2^32-1,2^32,2^63,2^64-1}, sets of byte arrays / nested / empty / mixed, variables in facts, unbound head variables, arity 0 and 64, operator sequences that under- and overflow the stack, unknown operator codes, absent required fields, duplicate and default symbols in tables, invalid regular expressions among the table strings, operations between sets of sizes {1,2,3,8,9,12} and different element types and between two table strings (in expression-only rules, so they are evaluated), odd versions; envelope hostility: next secret of 0/3/31/33/64 bytes, key and signature sizes, algorithm values, missing proof. mutate (20 %): bit flips, truncation, splice, self-concatenation of a valid token. bytes (10 %): random bytes. Every case runs in a worker process: Unmarshal, then String, Code, Serialize, RevocationIds, RootKeyID, BlockCount, Checks, GetContext, GetBlockID, CreateBlock+Build+Append, Seal, AuthorizerFor under the attacker root / another key / a key map, Authorizer, Authorize, Query, PrintWorld, Reset, SerializePolicies, LoadPolicies. Violation = recovered panic or death of the worker. Non-trivial = the token unmarshals and its chain verifies under the attacker root, so evaluation is reached; distinct by (bytes, authorizer).")
+	rec.SetExtra("rule", "rapid, three layers. struct (70 %): 1-3 schema-shaped blocks written with the independent writer and validly signed under an attacker-chosen root, with hostile fields: symbol / variable / predicate indexes from {0,27,28,1023,1024,1024+len,2^31,2^32-1,2^32,2^63,2^64-1}, sets of byte arrays / nested / empty / mixed, variables in facts, unbound head variables, arity 0 and 64, operator sequences that under- and overflow the stack, unknown operator codes, absent required fields, duplicate and default symbols in tables, invalid regular expressions among the table strings, operations between sets of sizes {1,2,3,8,9,12} and different element types and between two table strings (in expression-only rules, so they are evaluated), odd versions; envelope hostility: next secret of 0/3/31/33/64 bytes, key and signature sizes, algorithm values, missing proof. mutate (20 %): bit flips, truncation, splice, self-concatenation of a valid token. bytes (10 %): random bytes. Every case runs in a worker process: Unmarshal, then String, Code, Serialize, RevocationIds, RootKeyID, BlockCount, Checks, GetContext, GetBlockID, CreateBlock+Build+Append, Seal, AuthorizerFor under the attacker root / another key / key maps with and without default key, empty and nil maps, projections that answer nothing or fail, a nil key source, Authorizer, Authorize, Query, PrintWorld, Reset, SerializePolicies, LoadPolicies. Violation = recovered panic or death of the worker. Non-trivial = the token unmarshals and its chain verifies under the attacker root, so evaluation is reached; distinct by (bytes, authorizer).")
 	rec.SetExtra("assumptions", []string{"a worker that exceeds 20 s is inconclusive, not a violation (boundedness is C11's subject)", "evaluation limits for hostile programs: 150 ms, 400 facts, 30 iterations"})
 	harness.RunWith(t, harness.Spec[C10Case]{ID: "C10", Draw: drawC10, Check: checkC10}, rec)
 }
